@@ -64,6 +64,9 @@ func (p *{{$TypeName}}) InitDefault() {
 {{if eq .Category "union"}}
 func (p *{{$TypeName}}) CountSetFields{{$TypeName}}() int {
 	count := 0
+	if p == nil {
+		return count // a nil union has no member set (Write reports it instead of panicking)
+	}
 	{{- range .Fields}}
 	{{- if SupportIsSet .Field}}
 	if p.{{.IsSetter}}() {
